@@ -6,7 +6,12 @@
 #include "common/verif.hpp"
 using namespace hfsm2; using namespace hfsm2::detail;
 struct Rng { float next() { float f = nd_f32(); VASSUME(f >= 0.0f && f < 1.0f); return f; } };
+#ifdef VM_PLAN_PAYLOAD
+#define VM_PAYLOAD 1
+using Cfg = hfsm2::Config::ManualActivation::RandomT<Rng>::PayloadT<int32_t>;      // plan tasks may carry a payload (C14)
+#else
 using Cfg = hfsm2::Config::ManualActivation::RandomT<Rng>;
+#endif
 using M = hfsm2::MachineT<Cfg>;
 #define S(s) struct s
 #define VM_PLANS 1
